@@ -38,6 +38,40 @@ Section Spec.
   Definition spec_top (cwd0 top : str) (body : list node) : res (list item) :=
     if present cwd0 top then spec_list spec_node (dir_of cwd0 top) body else Err.
 
+  (* several config files one after the other: each is read from the SAME working directory (loading leaves the
+     process where it was), each resolves its relative paths against its own directory, a later file overrides the
+     earlier ones key by key; the first failure fails the whole *)
+  Fixpoint spec_cfgs (cwd0 : str) (tops : list (str * list node)) (acc : list item) : res (list item) :=
+    match tops with
+    | [] => Ok acc
+    | (top, body) :: rest =>
+        match spec_top cwd0 top body with
+        | Ok xs => spec_cfgs cwd0 rest (merge_items acc xs)
+        | Err => Err
+        | ErrOs => ErrOs
+        end
+    end.
+
+  (* default config files: a name that does not exist is skipped, so is a blank file; an undecodable one fails *)
+  Fixpoint spec_defaults_acc (cwd0 : str) (tops : list (str * dcontent)) (acc : list item) : res (list item) :=
+    match tops with
+    | [] => Ok acc
+    | (top, c) :: rest =>
+        if negb (present cwd0 top) then spec_defaults_acc cwd0 rest acc
+        else match c with
+             | DUnreadable => Err
+             | DEmpty => spec_defaults_acc cwd0 rest acc
+             | DBody body =>
+                 match spec_list spec_node (dir_of cwd0 top) body with
+                 | Ok xs => spec_defaults_acc cwd0 rest (merge_items acc xs)
+                 | Err => Err
+                 | ErrOs => ErrOs
+                 end
+             end
+    end.
+  Definition spec_defaults (cwd0 : str) (tops : list (str * dcontent)) : res (list item) :=
+    spec_defaults_acc cwd0 tops [].
+
   (* ---- guard of C19_relative_follows_config; its complement is two finding classes:
      4 list-file-relative: a list file whose content is loadable as YAML and which is named by a spelling that does
        not lead back to the same directory when read from the list file's own directory (i.e. practically every
@@ -96,6 +130,17 @@ Section Spec.
   Definition tree_enter_guard (cwd0 top : str) (body : list node) : bool :=
     negb (present cwd0 top)
     || (let d := cdir cwd0 top in dir_ok d && forallb (enter_guard d) body).
+
+  (* sequences: every file of the sequence inside the respective guard *)
+  Definition body_of (c : dcontent) : list node := match c with DBody b => b | _ => [] end.
+  Definition cfgs_guard (cwd0 : str) (tops : list (str * list node)) : bool :=
+    forallb (fun tb => tree_guard cwd0 (fst tb) (snd tb)) tops.
+  Definition cfgs_enter_guard (cwd0 : str) (tops : list (str * list node)) : bool :=
+    forallb (fun tb => tree_enter_guard cwd0 (fst tb) (snd tb)) tops.
+  Definition defaults_guard (cwd0 : str) (tops : list (str * dcontent)) : bool :=
+    forallb (fun tc => tree_guard cwd0 (fst tc) (body_of (snd tc))) tops.
+  Definition defaults_enter_guard (cwd0 : str) (tops : list (str * dcontent)) : bool :=
+    forallb (fun tc => tree_enter_guard cwd0 (fst tc) (body_of (snd tc))) tops.
 End Spec.
 
 (* finding class of a tree: 0 inside the guard; 5 when only the lexical ".." condition fails; 4 otherwise *)
@@ -104,3 +149,13 @@ Definition tree_class (files : list str) (links : list (str * str)) (lf_fixed rp
   if tree_guard files links lf_fixed rp_fixed dir_ok cwd0 top body then 0
   else if tree_guard files links lf_fixed true (fun _ => true) cwd0 top body then 5 else 4.
 
+
+(* class of a sequence: the class of its first file outside the guard *)
+Fixpoint seq_class (files : list str) (links : list (str * str)) (lf_fixed rp_fixed : bool) (dir_ok : str -> bool)
+                   (cwd0 : str) (tops : list (str * list node)) : N :=
+  match tops with
+  | [] => 0
+  | (top, body) :: rest =>
+      let k := tree_class files links lf_fixed rp_fixed dir_ok cwd0 top body in
+      if N.eqb k 0 then seq_class files links lf_fixed rp_fixed dir_ok cwd0 rest else k
+  end.
